@@ -174,8 +174,8 @@ pub fn raw_lines(call: CallId, req: &Req) -> Vec<RawCommand> {
         Req::RawList { n, fail_at, shape } => (0..*n)
             .map(|i| match fail_at {
                 // codes >= 1000: the command prints part of its output before failing with code - 1000
-                Some((f, code)) if *f == i && *code >= 1000 => RawCommand::new("vfail").argument(call.caller as u64).argument(call.seq as u64).argument(*code - 1000).argument("partial"),
-                Some((f, code)) if *f == i => RawCommand::new("vfail").argument(call.caller as u64).argument(call.seq as u64).argument(*code),
+                Some((f, code)) if *f == i && *code >= 1000 => RawCommand::new("v_fail").argument(call.caller as u64).argument(call.seq as u64).argument(*code - 1000).argument("partial"),
+                Some((f, code)) if *f == i => RawCommand::new("v_fail").argument(call.caller as u64).argument(call.seq as u64).argument(*code),
                 _ => RawCommand::new("vreq").argument(call.caller as u64).argument(call.seq as u64).argument(*shape + i as u64).argument(i as u64),
             })
             .collect(),
